@@ -45,6 +45,7 @@ UNARY_FUNCS = {
     "np.sin": F.sin, "math.sin": F.sin, "sin": F.sin,
     "np.cos": F.cos, "math.cos": F.cos, "cos": F.cos,
     "np.sqrt": F.sqrt, "math.sqrt": F.sqrt, "sqrt": F.sqrt,
+    "np.log": F.log, "math.log": F.log, "log": F.log,
     "np.cosh": F.cosh, "np.sinh": F.sinh, "math.cosh": F.cosh, "math.sinh": F.sinh,
 }
 CONSTS = {"np.pi": "pi", "math.pi": "pi", "pi": "pi"}
